@@ -7,6 +7,8 @@ CONSTANTS
   MaxTxns = 4
   DataSet = {"ok", "temp", "perm"}
   DropSet = {0, 1}
+  SrcSet = {"ok", "noopen", "readfail", "reset"}
+  LateSet = {1, 2}
   Devs = {}
   Gen = FALSE
 VIEW View
